@@ -12,11 +12,22 @@ Proof. reflexivity. Qed.
 Lemma ok_is_not_error : AuthPwAOk <> AuthPwError.
 Proof. discriminate. Qed.
 
-Lemma max_age_of_pos cfg : 0 < max_age_of cfg.
+(* where the maximum age comes from *)
+Lemma max_age_of_cfg cfg envs : 0 < cfg -> max_age_of cfg envs = cfg.
+Proof. intro H. unfold max_age_of. apply Z.ltb_lt in H. rewrite H. reflexivity. Qed.
+Lemma max_age_of_env cfg s : cfg <= 0 -> max_age_of cfg (Some s) = s.
+Proof. intro H. unfold max_age_of. apply Z.ltb_ge in H. rewrite H. reflexivity. Qed.
+Lemma max_age_of_default cfg : cfg <= 0 -> max_age_of cfg None = DefaultTokenMaxAge.
+Proof. intro H. unfold max_age_of. apply Z.ltb_ge in H. rewrite H. reflexivity. Qed.
+Lemma env_secs_spec e :
+  env_secs e = if is_nil (e_env_max_age e) then None
+               else option_map (fun ns => Z.quot ns 1000000000) (e_parse_dur e (e_env_max_age e ++ [x73])).
+Proof. unfold env_secs. destruct (is_nil (e_env_max_age e)); [reflexivity|]. destruct (e_parse_dur e _); reflexivity. Qed.
+(* with no usable environment value the maximum age is positive *)
+Lemma resolved_max_age_pos e : env_secs e = None -> 0 < resolved_max_age e.
 Proof.
-  unfold max_age_of. destruct (0 <? cfg) eqn:E.
-  - apply Z.ltb_lt in E. exact E.
-  - exact default_max_age_pos.
+  intro H. unfold resolved_max_age, max_age_of. rewrite H.
+  destruct (0 <? e_max_age e) eqn:E; [apply Z.ltb_lt in E; exact E|exact default_max_age_pos].
 Qed.
 
 Lemma is_nil_true b : is_nil b = true <-> b = [].
@@ -34,32 +45,32 @@ Lemma bytes_eqb_refl b : bytes_eqb b b = true.
 Proof. apply bytes_eqb_eq. reflexivity. Qed.
 
 (* ---------- timing ------------------------------------------------------ *)
-Lemma timing_ok_spec now cfg c : timing_ok now cfg c = true <-> times_valid now cfg c.
+Lemma age_ok_spec ma age : negb ((0 <? ma) && (ma <? age)) = true <-> (ma <= 0 \/ age <= ma).
+Proof.
+  rewrite negb_true_iff, andb_false_iff, !Z.ltb_ge. reflexivity.
+Qed.
+
+Lemma timing_ok_spec now ma c : timing_ok now ma c = true <-> times_valid now ma c.
 Proof.
   unfold timing_ok, times_valid, claim_time.
-  pose proof (max_age_of_pos cfg) as Hpos.
   split.
   - intro H.
     destruct (j_exp c) as [|s|z|] eqn:Ee; try discriminate;
     destruct (j_iat c) as [|s'|z'|] eqn:Ei; try discriminate.
     + split; left; reflexivity.
     + split; [left; reflexivity|right]. exists z'. split; [reflexivity|].
-      simpl in H. apply negb_true_iff in H. apply andb_false_iff in H as [H|H].
-      * apply Z.ltb_ge in H. lia.
-      * apply Z.ltb_ge in H. exact H.
+      simpl in H. apply age_ok_spec in H. exact H.
     + apply andb_true_iff in H as [H _]. apply Z.ltb_lt in H.
       split; [right; exists z; auto|left; reflexivity].
     + apply andb_true_iff in H as [H1 H2]. apply Z.ltb_lt in H1.
       split; [right; exists z; auto|right]. exists z'. split; [reflexivity|].
-      apply negb_true_iff in H2. apply andb_false_iff in H2 as [H2|H2].
-      * apply Z.ltb_ge in H2. lia.
-      * apply Z.ltb_ge in H2. exact H2.
+      apply age_ok_spec in H2. exact H2.
   - intros [[He|[z [He Hz]]] [Hi|[z' [Hi Hz']]]]; rewrite He, Hi; simpl.
     + reflexivity.
-    + apply negb_true_iff. apply andb_false_iff. right. apply Z.ltb_ge. exact Hz'.
+    + apply age_ok_spec. exact Hz'.
     + apply andb_true_iff. split; [apply Z.ltb_lt; exact Hz|reflexivity].
     + apply andb_true_iff. split; [apply Z.ltb_lt; exact Hz|].
-      apply negb_true_iff. apply andb_false_iff. right. apply Z.ltb_ge. exact Hz'.
+      apply age_ok_spec. exact Hz'.
 Qed.
 
 (* ---------- validateTokenAndDeriveKeys ---------------------------------- *)
@@ -75,7 +86,7 @@ Proof.
     destruct (kid_strict h) as [kid|] eqn:Ek; [|discriminate].
     destruct (load_signing_key e kid) as [key|] eqn:El; [|discriminate].
     destruct (decode_seg e p1) as [c|] eqn:Ec; [|discriminate].
-    destruct (timing_ok now (e_max_age e) c) eqn:Etm; simpl in H; [|discriminate].
+    destruct (timing_ok now (resolved_max_age e) c) eqn:Etm; simpl in H; [|discriminate].
     destruct (j_sub c) as [|s|z|] eqn:Esub; simpl in H; try discriminate.
     destruct (is_nil s) eqn:En; [discriminate|].
     inversion H; subst v; clear H.
@@ -273,7 +284,7 @@ Proof.
     destruct (bytes_eqb (c_sign (e_cr e) key (p0 ++ dot :: p1)) actual) eqn:Esig; simpl in H; [|discriminate].
     apply bytes_eqb_eq in Esig; subst actual.
     destruct (decode_seg e p1) as [c|] eqn:Ec; [|discriminate].
-    destruct (timing_ok now (e_max_age e) c) eqn:Etm; simpl in H; [|discriminate].
+    destruct (timing_ok now (resolved_max_age e) c) eqn:Etm; simpl in H; [|discriminate].
     destruct (is_nil (jstr (j_sub c))) eqn:En; [discriminate|].
     inversion H; subst out; clear H.
     exists p0, p1, p2, h, key, c. repeat split; auto.
@@ -326,4 +337,22 @@ Proof.
   exists cid, tok, sig, sid, rb, (i_mac (i_kdf sig tok) (mac_T cid sid ra rb)).
   simpl in Hsp. repeat split; auto;
     apply ideal_mac_fixes_signature in H as (A & B & C); auto.
+Qed.
+
+Lemma max_age_source e :
+  (0 < e_max_age e -> resolved_max_age e = e_max_age e) /\
+  (e_max_age e <= 0 -> forall ns,
+     e_env_max_age e <> [] -> e_parse_dur e (e_env_max_age e ++ [x73]) = Some ns ->
+     resolved_max_age e = Z.quot ns 1000000000) /\
+  (e_max_age e <= 0 ->
+     (e_env_max_age e = [] \/ e_parse_dur e (e_env_max_age e ++ [x73]) = None) ->
+     resolved_max_age e = DefaultTokenMaxAge).
+Proof.
+  unfold resolved_max_age. repeat split.
+  - intro H. apply max_age_of_cfg. exact H.
+  - intros H ns Hne Hp. rewrite env_secs_spec.
+    apply is_nil_false in Hne. rewrite Hne, Hp. simpl. apply max_age_of_env. exact H.
+  - intros H [He|Hp]; rewrite env_secs_spec.
+    + rewrite He. simpl. apply max_age_of_default. exact H.
+    + destruct (is_nil (e_env_max_age e)); [|rewrite Hp; simpl]; apply max_age_of_default; exact H.
 Qed.
